@@ -57,10 +57,7 @@ Proof. exact cap_distance_rot. Qed.
    and return what the unrolled Model.atbound returns, so the theorems below are about the loops *)
 Theorem C19_atbound_loops_terminate : forall fuel ra y x, (2 <= fuel)%nat -> (0 <= ra <= 360)%R ->
   atbound_loops fuel (r2d (d2r ra - atan2 y x)) = Some (atbound (r2d (d2r ra - atan2 y x))).
-Proof.
-  intros fuel ra y x Hf Hra. apply atbound_loops_eq; [exact Hf|].
-  apply atbound_arg_range; [exact Hra|apply atan2_bound].
-Qed.
+Proof. exact atbound_loops_terminate. Qed.
 
 (* Both branches, every centre (poles and seam included), every radius up to 180 deg: the
    point is within rad of the centre, has longitude in [0,360] and latitude in [-90,90], and
